@@ -31,7 +31,7 @@ func vPruneOptsC09(t *rapid.T) (PruneOptions, []string) {
 		MaxRepackSize:       rapid.SampledFrom([]string{"", "", "", "", "", "0", "2k", "1M"}).Draw(t, "maxrepack"),
 		RepackCacheableOnly: rapid.IntRange(0, 4).Draw(t, "cacheable") == 0,
 		RepackUncompressed:  rapid.IntRange(0, 4).Draw(t, "uncompressed") == 0,
-		SmallPackSize:       rapid.SampledFrom([]string{"", "", "1M", "1k"}).Draw(t, "smaller"),
+		SmallPackSize:       rapid.SampledFrom([]string{"", "", "1M", "1M", "1k"}).Draw(t, "smaller"),
 	}
 	return o, []string{o.MaxUnused, o.MaxRepackSize, fmt.Sprint(o.RepackCacheableOnly), fmt.Sprint(o.RepackUncompressed), o.SmallPackSize}
 }
@@ -96,7 +96,24 @@ func TestVerifC09PruneCrashPrefixes(t *testing.T) {
 		models := map[string]vTree{}
 		var order []string
 		for i := 0; i < h.Backups; i++ {
-			tr := vGenTree(t, vTreeGen{MaxEntries: 12, ContentPool: 10})
+			var tr vTree
+			if i == 0 || rapid.IntRange(0, 3).Draw(t, "fresh") == 0 {
+				tr = vGenTree(t, vTreeGen{MaxEntries: 14, ContentPool: 28})
+			} else {
+				// an edit of the previous tree: drop some files, add new ones. Blobs first stored by an
+				// earlier backup stay partly used when that snapshot is forgotten => packs to repack
+				tr = models[order[i-1]].Clone()
+				for _, p := range tr.Paths() {
+					if tr[p].Kind == 'f' && rapid.IntRange(0, 2).Draw(t, "drop") == 0 {
+						delete(tr, p)
+					}
+				}
+				nn := rapid.IntRange(1, 4).Draw(t, "nnew")
+				for j := 0; j < nn; j++ {
+					tr[fmt.Sprintf("new%d_%d", i, j)] = &vNode{Kind: 'f', Mode: 0o644, Mtime: int64(1500000000+i*1000+j) * 1e9,
+						Seed: rapid.Uint64().Draw(t, "newseed"), Len: rapid.IntRange(1, 3000).Draw(t, "newlen")}
+				}
+			}
 			_ = os.RemoveAll(src)
 			_ = os.Mkdir(src, 0o755)
 			if err := tr.Materialize(src); err != nil {
